@@ -327,4 +327,48 @@ def bip341Digest (S : Bytes → Bytes) (tx : Tx) (nIn : Nat) (spent : List TxOut
     (annex : Option Bytes) (ext : Option TapExt) : Bytes :=
   taggedWith S Gen.SigHash.TAG_SIGHASH (bip341Preimage S tx nIn spent ht annex ext)
 
+/-! ## Core's `FindAndDelete` (the legacy script code has the checked signature's push removed before it is hashed) -/
+
+/-- the inner `while (end - pc >= b.size() && std::equal(b.begin(), b.end(), pc)) { pc += b.size(); ++nFound; }`:
+    how many copies of `b` stand at the head of `s`, one after the other (`fuel` ≥ length is enough for a
+    non-empty `b`) -/
+def matchCount (b : Bytes) : Nat → Bytes → Nat
+  | 0, _ => 0
+  | fuel + 1, s => if s.take b.length = b then 1 + matchCount b fuel (s.drop b.length) else 0
+
+/-- the `do { copy what was passed over; skip the matches } while (script.GetOp(pc, opcode))` of Core's
+    `FindAndDelete`, on the rest of the script: skip the copies of `b` standing here, read ONE operation and keep
+    it whole (a copy of `b` inside its pushed data is never looked at), go on after it; where no operation can be
+    read the rest is kept verbatim.  `F` is the fuel of the inner loop.  Answers (result, nFound). -/
+def fadAux (b : Bytes) (F : Nat) : Nat → Bytes → Bytes × Nat
+  | 0, s => (s, 0)
+  | fuel + 1, s =>
+    let k := matchCount b F s
+    let s1 := s.drop (k * b.length)
+    match readOp s1 with
+    | none => (s1, k)
+    | some (_, n) =>
+      let r := fadAux b F fuel (s1.drop n)
+      (s1.take n ++ r.1, k + r.2)
+
+/-- Core `FindAndDelete(script, b)`: an empty `b` deletes nothing ("return nFound" up front), and the script is
+    replaced only `if (nFound > 0)`. -/
+def findAndDelete (script b : Bytes) : Bytes × Nat :=
+  if b.isEmpty then (script, 0)
+  else
+    let r := fadAux b script.length (script.length + 1) script
+    if r.2 = 0 then (script, 0) else r
+
+/-- `CScript() << vchSig`: the push operation Core builds around the signature it searches for -/
+def pushOf (d : Bytes) : Bytes :=
+  if d.length < 76 then UInt8.ofNat d.length :: d
+  else if d.length < 256 then 76 :: leBytes 1 d.length ++ d
+  else if d.length < 65536 then 77 :: leBytes 2 d.length ++ d
+  else 78 :: leBytes 4 d.length ++ d
+
+/-- the script code of a pre-segwit signature check: the script from the last executed OP_CODESEPARATOR on
+    (`offset`), with every signature under check removed by FindAndDelete, one after the other -/
+def legacyScriptCode (script : Bytes) (offset : Nat) (sigs : List Bytes) : Bytes :=
+  sigs.foldl (fun sc sig => (findAndDelete sc (pushOf sig)).1) (script.drop offset)
+
 end Btc.Sighash
